@@ -160,8 +160,8 @@ func (prop) Drive(d *core.Driver) error {
 			avoid = append(avoid, s)
 		}
 	}
-	perUnit := d.N(150, 15000) // calls per weight unit and batch
-	batches := 12
+	perUnit := d.N(150, 1000) // calls per weight unit and batch
+	batches := d.N(12, 96)    // batches (= seeds) per checker
 	var cases []core.Case
 	names := append([]string{}, checkerOrder...)
 	sort.Strings(names)
